@@ -295,3 +295,35 @@ def finish(ctx, level, rule, t0, assumptions=(), coverage_extra=None, write_evid
             print(f"VIOLATION property={ctx.pid} replay={path}")
         return 1
     return 0
+
+
+def run_fuzz(ctx, runs):
+    """thorough-tier extra engine: a bounded atheris/libFuzzer campaign over the same decoder and oracle (tools/fuzz_types.py).
+    Bounded by run count, empty corpus, seed = VERIF_SEED. Missing atheris is noted, never an error."""
+    import shutil
+    import subprocess
+    import tempfile
+    deps = os.path.join(HOME, ".deps")
+    if not os.path.isdir(os.path.join(deps, "atheris")):
+        ctx.notes.append("atheris not installed: coverage-guided campaign skipped")
+        return
+    d = tempfile.mkdtemp(prefix="fuzz-")
+    try:
+        p = subprocess.run([sys.executable, "-W", "ignore", os.path.join(HOME, "tools", "fuzz_types.py"), ctx.pid, f"-runs={runs}",
+                            f"-seed={max(1, ctx.seed)}", "-verbosity=0"], cwd=d, capture_output=True, text=True, timeout=3600)
+        out = p.stdout + p.stderr
+        import re
+        done = [l.strip() for l in out.splitlines() if re.match(r"^#\d+\s+DONE", l) or l.startswith("Done ")]
+        ctx.extra["atheris_campaign"] = {"runs_requested": runs, "summary": done[-2:] if done else out[-300:].splitlines()[-2:]}
+        for line in out.splitlines():
+            if line.startswith("FUZZ-VIOLATION "):
+                _, sig, spec = line.split(" ", 2)
+                try:
+                    spec = json.loads(spec)
+                except ValueError:
+                    pass
+                ctx.record_violation(sig, spec, "found by the atheris campaign")
+        if p.returncode != 0 and not any(l.startswith("FUZZ-VIOLATION ") for l in out.splitlines()):
+            raise HarnessError("atheris campaign failed: " + out[-1500:])
+    finally:
+        shutil.rmtree(d, ignore_errors=True)
